@@ -733,6 +733,8 @@ def build_cases(tier="quick"):
 
     ref += [Case(f"{PROP}/sevm.SEVM.create#init-code", c.case, c.harness, replay=c.replay, sources=c.sources) for c in c09.create_cases()]
     ref += [Case(f"{PROP}/sevm.SEVM.run#CODECOPY", c.case, c.harness, replay=c.replay, sources=c.sources) for c in c01.memory_cases() if c.unit.endswith("#CODECOPY")]
+    # ... and so does EXTCODECOPY, for an account without code the whole range is past the end (C01 contract)
+    ref += [Case(f"{PROP}/sevm.SEVM.run#EXTCODECOPY", c.case, c.harness, replay=c.replay, sources=c.sources) for c in c01.ext_cases() if c.unit.endswith("#EXTCODECOPY")]
     return insn_len_cases() + jumpdest_cases() + valid_jumpdests_cases() + decode_past_end_cases() + decode_cases() + init_cases() + jump_check_cases() + ref
 
 
